@@ -95,8 +95,14 @@ def run(name, props=None):
         return {"name": name, "error": "patch does not apply: " + out[-300:]}
     res = {"name": name, "checks": {}}
     try:
+        env = dict(os.environ)
+        scratch = os.path.join(VERIF, ".cache", "seeded_out")
+        env["VERIF_EVIDENCE_DIR"] = os.path.join(scratch, "evidence")
+        env["VERIF_REPLAY_DIR"] = os.path.join(scratch, "replays")
+        for sub in ("evidence", "replays"):
+            os.makedirs(os.path.join(scratch, sub), exist_ok=True)
         for p in props:
-            rc, out = sh([os.path.join(VERIF, "check", "run"), p, "--tier", "quick"], cwd=VERIF, timeout=3600)
+            rc, out = sh([os.path.join(VERIF, "check", "run"), p, "--tier", "quick"], cwd=VERIF, timeout=3600, env=env)
             viol = [l for l in out.split("\n") if l.startswith("VIOLATION")]
             what = [l for l in out.split("\n") if l.startswith("[%s]" % p)]
             res["checks"][p] = {"exit": rc, "violation": viol[:1], "what": [w[:300] for w in what[:1]]}
